@@ -913,7 +913,7 @@ EXPORT errno_t _wcsnorm_compose_s_chk(wchar_t *restrict dest, rsize_t dmax,
 #endif
 {
     wchar_t *p = (wchar_t *)src;
-    const wchar_t *e = p + *lenp;
+    const wchar_t *e;
     uint32_t cpS = 0;       /* starter code point */
     bool valid_cpS = false; /* if false, cpS isn't initialized yet */
     uint8_t pre_cc = 0;
@@ -934,34 +934,36 @@ EXPORT errno_t _wcsnorm_compose_s_chk(wchar_t *restrict dest, rsize_t dmax,
             *lenp = 0;
         return RCNEGATE(ESNULLP);
     }
-    if (unlikely(lenp == NULL)) {
-        handle_werror(dest, destbos / sizeof(wchar_t),
-                      "wcsnorm_compose_s: lenp is null", ESNULLP);
-        return RCNEGATE(ESNULLP);
-    }
+    CHK_DMAX_ZERO("wcsnorm_compose_s")
     if (destbos == BOS_UNKNOWN) {
         if (unlikely(dmax > RSIZE_MAX_WSTR)) {
-            *lenp = 0;
-            handle_werror(dest, RSIZE_MAX_WSTR,
-                          "wcsnorm_compose_s: dmax exceeds max", ESLEMAX);
-            return ESLEMAX;
+            if (lenp)
+                *lenp = 0;
+            invoke_safe_str_constraint_handler(
+                "wcsnorm_compose_s: dmax exceeds max", (void *)dest, ESLEMAX);
+            return RCNEGATE(ESLEMAX);
         }
         BND_CHK_PTR_BOUNDS(dest, dmax * sizeof(wchar_t));
     } else {
         const size_t destsz = dmax * sizeof(wchar_t);
         if (unlikely(destsz > destbos)) {
-            *lenp = 0;
+            if (lenp)
+                *lenp = 0;
             handle_werror(dest, destbos / sizeof(wchar_t),
                           "wcsnorm_compose_s: dmax exceeds dest", EOVERFLOW);
-            return EOVERFLOW;
+            return RCNEGATE(EOVERFLOW);
         }
+    }
+    if (unlikely(lenp == NULL)) {
+        handle_werror(dest, dmax, "wcsnorm_compose_s: lenp is null", ESNULLP);
+        return RCNEGATE(ESNULLP);
     }
     if (unlikely(src == NULL)) {
         *lenp = 0;
-        handle_werror(dest, destbos / sizeof(wchar_t),
-                      "wcsnorm_compose_s: src is null", ESNULLP);
+        handle_werror(dest, dmax, "wcsnorm_compose_s: src is null", ESNULLP);
         return RCNEGATE(ESNULLP);
     }
+    e = p + *lenp;
 
     while (p < e) {
         uint8_t cur_cc;
@@ -982,14 +984,15 @@ EXPORT errno_t _wcsnorm_compose_s_chk(wchar_t *restrict dest, rsize_t dmax,
                 if (p < e)
                     continue;
             } else {
-                _ENC_W16(dest, dmax, cp);
-                if (unlikely(!dmax)) {
+                if (unlikely(dmax <= 1)) {
+                    *lenp = 0;
                     handle_werror(orig_dest, orig_dmax,
                                   "wcsnorm_compose_s: "
                                   "dmax too small",
                                   ESNOSPC);
                     return RCNEGATE(ESNOSPC);
                 }
+                _ENC_W16(dest, dmax, cp);
                 continue;
             }
         } else {
@@ -1056,15 +1059,18 @@ EXPORT errno_t _wcsnorm_compose_s_chk(wchar_t *restrict dest, rsize_t dmax,
             }
         }
 
-        /* output */
-        _ENC_W16(dest, dmax, cpS); /* starter (composed or not) */
-        if (unlikely(!dmax)) {
+        /* output: the starter, the pending marks and a terminator must fit */
+        if (unlikely(dmax <= cc_pos + 1)) {
+            if (seq_ext)
+                free(seq_ext);
+            *lenp = 0;
             handle_werror(orig_dest, orig_dmax,
                           "wcsnorm_compose_s: "
                           "dmax too small",
                           ESNOSPC);
             return RCNEGATE(ESNOSPC);
         }
+        _ENC_W16(dest, dmax, cpS); /* starter (composed or not) */
 
         if (cc_pos == 1) {
             _ENC_W16(dest, dmax, *seq_ptr);
